@@ -420,6 +420,15 @@ fn glue_cmds(colours: &[[u8; 3]], pairs: &[(usize, usize)]) -> Vec<TerminalComma
     cmds
 }
 
+/// exchange the stand-alone encoder of depth number `di` (0 = 8bit, 1 = gray, 2 = true) of the context with `e`
+fn slot_of(s: &mut Ctx, di: usize, e: &mut Enc) {
+    match di {
+        0 => std::mem::swap(&mut s.e8, e),
+        1 => std::mem::swap(&mut s.eg, e),
+        _ => std::mem::swap(&mut s.et, e),
+    }
+}
+
 /// capabilities written out field by field (no `Default` of the crate involved)
 fn caps_of(depth: ColorDepth) -> TerminalCaps {
     TerminalCaps { depth, glyphs: false, kitty_keyboard: false }
@@ -903,7 +912,11 @@ impl Ctx {
             Some((plan, reported)) => {
                 input["terminal"] = json!(plan);
                 input["terminal_reports"] = json!(reported);
-                let what = format!("terminal object on a pty ({plan}, capabilities().depth = {reported}): {what}");
+                let what = if plan.starts_with("TTYEncoder") {
+                    format!("stand-alone encoder {plan}: {what}")
+                } else {
+                    format!("terminal object on a pty ({plan}, capabilities().depth = {reported}): {what}")
+                };
                 self.out.fail(&what, input, expected, got);
             }
             None => self.out.fail(what, input, expected, got),
@@ -964,6 +977,38 @@ impl Ctx {
             }
             let e = if which == 0 { &mut enc } else { &mut dflt };
             slot(self, e);
+        }
+        self.glue = None;
+        // every combination of the OTHER capability fields: the reduction is the one of the declared depth
+        for (di, depth) in [ColorDepth::EightBit, ColorDepth::Gray, ColorDepth::TrueColor].into_iter().enumerate() {
+            for glyphs in [false, true] {
+                for kitty_keyboard in [false, true] {
+                    let name = ["8bit", "gray", "true"][di];
+                    let mut e = Enc { be: Backend::Plain(TTYEncoder::new(TerminalCaps { depth, glyphs, kitty_keyboard })), buf: Vec::new() };
+                    self.glue = Some((format!("TTYEncoder::new(TerminalCaps {{ depth: {name}, glyphs: {glyphs}, kitty_keyboard: {kitty_keyboard} }})"), name.to_string()));
+                    self.out.hist(&format!("caps:{name}:glyphs={glyphs}:kitty={kitty_keyboard}"));
+                    slot_of(self, di, &mut e);
+                    let mut x = 0x9E37_79B9_7F4A_7C15u64 ^ ((di as u64) << 8 | (glyphs as u64) << 1 | kitty_keyboard as u64);
+                    for k in 0..240u32 {
+                        x ^= x << 13;
+                        x ^= x >> 7;
+                        x ^= x << 17;
+                        let c = if k < 6 {
+                            [[0u8, 0, 0], [255, 255, 255], [0x60, 0x50, 0x70], [0x20, 0xc0, 0x40], [0xeb, 0xdb, 0xb2], [0x5f, 0x87, 0xaf]][k as usize]
+                        } else {
+                            [x as u8, (x >> 8) as u8, (x >> 16) as u8]
+                        };
+                        match di {
+                            0 => {
+                                self.eight_bit(c[0], c[1], c[2], false);
+                            }
+                            1 => self.gray(c[0], c[1], c[2], false, false),
+                            _ => self.true_color(c[0], c[1], c[2], false),
+                        }
+                    }
+                    slot_of(self, di, &mut e);
+                }
+            }
         }
         self.glue = None;
         // cross-checks (the `rasterize` crate is outside /repo; the oracle measures with its `distance`, `luma`
@@ -1861,7 +1906,9 @@ fn main() {
     if let Some(rep) = &cfg.replay {
         let inp = &rep["failure"]["input"];
         let get = |v: &Value| v.as_u64().unwrap_or(0) as u8;
-        if inp["role"].as_str() == Some("setup") && inp["terminal"].is_null() {
+        if (inp["role"].as_str() == Some("setup") && inp["terminal"].is_null())
+            || inp["terminal"].as_str().is_some_and(|t| t.starts_with("TTYEncoder"))
+        {
             ctx.helpers_part();
         }
         if let Some(plan) = inp["terminal"].as_str() {
